@@ -18,4 +18,16 @@ try:
     out["selftest_benign_silent"] = b["selected"] - b["not_ok"]
 except Exception as e:  # noqa
     out["selftest_benign_error"] = str(e)
+try:
+    if len(sys.argv) > 3:
+        sd = json.load(open(sys.argv[3]))
+        out["selftest_seeded_replayed"] = len(sd)
+        out["selftest_seeded_reported"] = sum(1 for r in sd if r.get("results", {}).get(r["property"], {}).get("violation"))
+        out["selftest_seeded"] = [
+            {"id": r["id"], "reported": bool(r.get("results", {}).get(r["property"], {}).get("violation")),
+             "error": r.get("error", ""),
+             "first_report": (r.get("results", {}).get(r["property"], {}).get("detail") or [""])[0][:200]}
+            for r in sd]
+except Exception as e:  # noqa
+    out["selftest_seeded_error"] = str(e)
 json.dump(out, sys.stdout)
